@@ -6,10 +6,14 @@
 //@ harness e_size_kinds kind=enum props=C14 bound=<<a directory, a FIFO and an empty regular file x -size N, +N, -N for N in 0, 1, 8 x units c, b, k>> label=<<-size reads the size of the status record uniformly, whatever the file type: exactly one of N, +N, -N is true and it is the one the rounded-up st_size dictates>>
 //@ harness e_ids kind=enum props=C14,C13 bound=<<files owned by uid/gid 0 and (when running as root) 1234/4321 x -uid/-gid N, +N, -N for N in {0, 1, 1233, 1234, 1235, 4321, 2^32-1, 2^32, 2^32+1234, 2^32+4321, 2^63, 2^64-1}>> label=<<-uid/-gid compare the numeric id with N as integers: N equal, +N greater, -N less, for every N up to 2^64-1>>
 //@ harness e_regex_language kind=enum props=C17 bound=<<patterns d/ followed by 1..=3 items, each an atom a, b or . with an optional *, +, ?, {0,2} or {1,2}, written in each of emacs, posix-basic, posix-extended and grep syntax x paths d/ + up to 3 letters over {a, b}>> label=<<-regex is true exactly when the whole path is in the language of the pattern (oracle: the same pattern as an anchored regex of the independent `regex` crate)>>
+//@ harness e_perm_operands kind=enum props=C11,C13 bound=<<-perm operands: empty, -, /, a lone comma, u+r with a trailing, leading or doubled comma, u+q, 8, 77777 (must be rejected) and u+r, 644, -u+r,g+w, /222, =, a= (must be accepted)>> label=<<an invalid -perm operand (an empty clause, an unknown permission letter, a digit that is not octal, too many digits) is rejected when the command line is parsed; valid symbolic and octal operands are accepted>>
+//@ harness e_samefile kind=enum props=C13 bound=<<a real tree with a file, a hard link to it, a link to it, a link to a missing file (ENOENT) and a link through a non-directory (ENOTDIR) x each as -samefile operand x each as entry x -P/-L>> label=<<-samefile F is true exactly when the entry's status record (lstat under -P, stat falling back to lstat for dangling links under -L) names the same device and inode as F's>>
+//@ harness e_inum_below_root kind=enum props=C13,C14 bound=<<every entry directly below / (mount points included where the sandbox has them)>> label=<<-inum N selects an entry iff N is the inode number of its status record, also for mount points, where the directory listing reports another number>>
 //@ harness e_type_tests kind=enum props=C13 bound=<<a real tree with a file (mode 0600), a directory, a link to the file, a link to the directory, a dangling link, each also given as starting point x -P/-H/-L x -type/-xtype with letters f, d, l x alone, followed by -perm 600, or preceded by -perm 600>> label=<<-type tests the record the follow mode selects (lstat under -P, stat falling back to lstat under -L, stat for starting points only under -H), -xtype makes the opposite choice, and -perm reads the record of the follow mode whatever was evaluated before it on the same entry>>
+//@ harness e_regex_nonutf8 kind=enum props=C17 bound=<<the pattern .* on the path d/caf<0xE9>>> label=<<the path as -print would print it is a string also when a name is not valid UTF-8: .* accepts it>>
 //@ harness e_iregex_case kind=enum props=C17 bound=<<patterns abc, a.c, [a-c]+, [0-^]+, [_-~]+, [^a]b, (letters also upper-cased) x paths abc, ABC, aBc, 123, a-c, xb>> label=<<-iregex ignores letter case: its verdict does not change when the letters of the path or of the pattern change case, and it equals -regex when both are lower-cased and the pattern has no range spanning only one case>>
 //@ harness e_regextype_scope kind=enum props=C17 bound=<<syntaxes emacs, posix-basic, posix-extended, grep x patterns a+, a\+, a{2}, a\{2\}, a|b, a\|b, (a), \(a\) x paths aa, a+, a{2}, a|b, a, b, (a) x -regextype placed before the -regex directly, inside an earlier parenthesis group, inside the same group, after another -regextype, or before an earlier -regex that already used it>> label=<<-regex uses the syntax of the nearest preceding -regextype on the command line, wherever parentheses are>>
-//@ harness e_regex_whole_path kind=enum props=C17 bound=<<literal patterns and paths of 1..=3 symbols over {a, b, /, e-acute}; -regex and -iregex (paths also with A)>> label=<<a pattern without metacharacters matches exactly the path equal to it (ignoring letter case for -iregex): never a prefix, never a substring, multi-byte characters included>>
+//@ harness e_regex_whole_path kind=enum props=C17 bound=<<literal patterns and paths of 1..=3 symbols over {a, b, /, e-acute, blank, #} in each of the four syntaxes; -regex and -iregex (paths also with A)>> label=<<a pattern without metacharacters matches exactly the path equal to it (ignoring letter case for -iregex): never a prefix, never a substring, multi-byte characters included>>
 #[cfg(verif_replay)]
 mod verif_enum_matchers {
     use super::*;
@@ -130,6 +134,62 @@ mod verif_enum_matchers {
     }
     #[test] fn e_regex_language() { kani::explore(regex_language_body) }
 
+    fn perm_operands_body() {
+        let bad = ["", "-", "/", ",", "u+r,", ",u+r", "u+r,,g+r", "u+q", "8", "77777"];
+        let good = ["u+r", "644", "-u+r,g+w", "/222", "=", "a="];
+        let k = pick(bad.len() + good.len());
+        let (op, want_ok) = if k < bad.len() { (bad[k], false) } else { (good[k - bad.len()], true) };
+        let mut config = Config::default();
+        let got_ok = build_top_level_matcher(&["-perm", op], &mut config).is_ok();
+        if got_ok != want_ok { eprintln!("  input -perm {op:?}: {}, expected {}", if got_ok { "accepted" } else { "rejected" }, if want_ok { "accepted" } else { "rejected" }); }
+        assert!(got_ok == want_ok, "-perm operand validation");
+    }
+    #[test] fn e_perm_operands() { kani::explore(perm_operands_body) }
+
+    fn samefile_body() {
+        use std::os::unix::fs::{symlink, MetadataExt};
+        let d = std::env::temp_dir().join(format!("verif-enum-same-{}", std::process::id()));
+        let _ = std::fs::remove_dir_all(&d);
+        std::fs::create_dir_all(&d).unwrap();
+        std::fs::write(d.join("file"), "x").unwrap();
+        std::fs::write(d.join("other"), "y").unwrap();
+        std::fs::hard_link(d.join("file"), d.join("hard")).unwrap();
+        symlink("file", d.join("link-f")).unwrap();
+        symlink("missing", d.join("link-missing")).unwrap();
+        symlink("file/x", d.join("link-notdir")).unwrap();
+        let names = ["file", "other", "hard", "link-f", "link-missing", "link-notdir"];
+        let (op, en, follow) = (names[pick(6)], names[pick(6)], pick(2) == 1);
+        let rec = |n: &str| { let p = d.join(n); if follow { std::fs::metadata(&p).or_else(|_| std::fs::symlink_metadata(&p)) } else { std::fs::symlink_metadata(&p) }.map(|m| (m.dev(), m.ino())).unwrap() };
+        let want = rec(op) == rec(en);
+        let (ops, ens) = (d.join(op), d.join(en));
+        let args: Vec<&str> = vec!["find", if follow { "-L" } else { "-P" }, ens.to_str().unwrap(), "-maxdepth", "0", "-samefile", ops.to_str().unwrap(), "-print0"];
+        let deps = FakeDependencies::new();
+        let rc = crate::find::find_main(&args, &deps);
+        let got = !deps.output.borrow().get_ref().is_empty();
+        let _ = std::fs::remove_dir_all(&d);
+        if got != want || rc != 0 { eprintln!("  input find {} {en} -samefile {op}: selected {got} (exit {rc}), expected {want}", if follow { "-L" } else { "-P" }); }
+        assert!(rc == 0, "-samefile failed on a link it should fall back to lstat() for");
+        assert!(got == want, "-samefile");
+    }
+    #[test] fn e_samefile() { kani::explore(samefile_body) }
+
+    fn inum_below_root_body() {
+        use std::os::unix::fs::MetadataExt;
+        let mut bad = Vec::new();
+        for e in std::fs::read_dir("/").unwrap() {
+            let p = e.unwrap().path();
+            let md = match std::fs::symlink_metadata(&p) { Ok(m) => m, Err(_) => continue };
+            let ino = md.ino().to_string();
+            let name = p.file_name().unwrap().to_string_lossy().into_owned();
+            let deps = FakeDependencies::new();
+            let _ = crate::find::find_main(&["find", "/", "-mindepth", "1", "-maxdepth", "1", "-name", &name, "-inum", &ino, "-print0"], &deps);
+            if deps.output.borrow().get_ref().is_empty() { bad.push(format!("{} (inode {ino}) is not selected by -inum {ino}", p.display())); }
+        }
+        if !bad.is_empty() { eprintln!("  input {}", bad.join("\n  input ")); }
+        assert!(bad.is_empty(), "-inum does not read the inode number of the status record");
+    }
+    #[test] fn e_inum_below_root() { kani::explore(inum_below_root_body) }
+
     fn type_tests_body() {
         use std::os::unix::fs::{symlink, PermissionsExt};
         let d = std::env::temp_dir().join(format!("verif-enum-type-{}", std::process::id()));
@@ -220,17 +280,30 @@ mod verif_enum_matchers {
     #[test] fn e_regextype_scope() { kani::explore(regextype_body) }
 
     fn whole_path_body() {
-        let syms = ["a", "b", "/", "\u{e9}"];
+        let syms = ["a", "b", "/", "\u{e9}", " ", "#"];
         let icase = pick(2) == 1;
+        let rtype = ["emacs", "posix-basic", "posix-extended", "grep"][pick(4)];
         let np = 1 + pick(3);
-        let pat: String = (0..np).map(|_| syms[pick(4)]).collect();
-        let psyms: &[&str] = if icase { &["a", "A", "b", "/", "\u{e9}"] } else { &syms };
+        let pat: String = (0..np).map(|_| syms[pick(syms.len())]).collect();
+        let psyms: &[&str] = if icase { &["a", "A", "b", "/", "\u{e9}", " ", "#"] } else { &syms };
         let ns = 1 + pick(3);
         let path: String = (0..ns).map(|_| psyms[pick(psyms.len())]).collect();
         let want = if icase { path.to_lowercase() == pat.to_lowercase() } else { path == pat };
-        let got = eval(&[if icase { "-iregex" } else { "-regex" }, &pat, "-a", "-true"], &path);
-        if got != Some(want) { eprintln!("  input {} {pat:?} on path {path:?}: {got:?}, expected {want}", if icase { "-iregex" } else { "-regex" }); }
+        let got = eval(&["-regextype", rtype, if icase { "-iregex" } else { "-regex" }, &pat, "-a", "-true"], &path);
+        if got != Some(want) { eprintln!("  input -regextype {rtype} {} {pat:?} on path {path:?}: {got:?}, expected {want}", if icase { "-iregex" } else { "-regex" }); }
         assert!(got == Some(want), "a literal pattern must match exactly the whole path");
     }
     #[test] fn e_regex_whole_path() { kani::explore(whole_path_body) }
+    #[test] fn e_regex_nonutf8() { kani::explore(nonutf8_path_body) }
+    /// the path "as -print would print it" of an entry whose name is not valid UTF-8 is still a string: .* must accept it
+    fn nonutf8_path_body() {
+        use std::os::unix::ffi::OsStrExt;
+        let path = std::path::PathBuf::from(std::ffi::OsStr::from_bytes(b"d/caf\xe9"));
+        let mut config = Config::default();
+        let m = build_top_level_matcher(&["-regex", ".*", "-a", "-true"], &mut config).unwrap();
+        let deps = FakeDependencies::new();
+        let got = m.matches(&WalkEntry::new(path, 1, Follow::Never), &mut deps.new_matcher_io());
+        if !got { eprintln!("  input -regex '.*' on the path d/caf\\xe9 (not valid UTF-8): false"); }
+        assert!(got, "-regex '.*' must accept every path");
+    }
 }
